@@ -828,6 +828,7 @@ SOURCES = {
     'calc': 'py_ballisticcalc/trajectory_calc/_trajectory_calc.py',
     'vector': 'py_ballisticcalc/vector/_vector.py',
     'munition': 'py_ballisticcalc/munition.py',
+    'trajdata': 'py_ballisticcalc/trajectory_data/_trajectory_data.py',
 }
 
 N = Num
@@ -1321,6 +1322,56 @@ def emit_zero(ev):
     return '\n'.join(out)
 
 
+def emit_danger(ev):
+    """slices of `HitResult.danger_space`: half the target height, the two scan tests; the shapes of the scans (which rows, in which
+    order, the fall-back rows, the ArithmeticError guard) are matched structurally"""
+    f = ev.method('HitResult', 'danger_space')
+    if f is None:
+        raise Unsupported('HitResult.danger_space not found')
+    def stmt(src):   # noqa: E306
+        return ast.dump(ast.parse(src).body[0])
+    body = [n for n in f.body if not (isinstance(n, ast.Expr) and isinstance(n.value, ast.Constant))]
+    dumps = [ast.dump(n) for n in body]
+    for need in ('at_range = PreferredUnits.distance(at_range)', 'target_height = PreferredUnits.distance(target_height)'):
+        if stmt(need) not in dumps:
+            raise Unsupported('danger_space: missing `' + need + '`')
+    half = [n for n in body if isinstance(n, ast.Assign) and isinstance(n.targets[0], ast.Name) and n.targets[0].id == 'target_height_half']
+    if len(half) != 1:
+        raise Unsupported('danger_space: target_height_half')
+    hv = ev.ev(half[0].value, {'target_height': Qty('Distance', 'heightRaw')})
+    out = [f'/-- `danger_space`: half the target height (raw inches) -/\ndef danger_half (heightRaw : α) : α :=\n  {num(hv)}\n']
+    guard = [n for n in body if isinstance(n, ast.If) and 'index_at_distance' in ast.dump(n.test)]
+    if len(guard) != 1 or ast.dump(guard[0].test) != ast.dump(ast.parse('(index := self.index_at_distance(at_range)) < 0').body[0].value) \
+            or not (len(guard[0].body) == 1 and isinstance(guard[0].body[0], ast.Raise) and 'ArithmeticError' in ast.dump(guard[0].body[0])):
+        raise Unsupported('danger_space: the out-of-range guard changed')
+    defs = {n.name: n for n in body if isinstance(n, ast.FunctionDef)}
+    shapes = {'find_begin_danger': ('reversed(self.trajectory[:row_num])', 'self.trajectory[0]'),
+              'find_end_danger': ('self.trajectory[row_num + 1:]', 'self.trajectory[-1]')}
+    for name, (it, fallback) in shapes.items():
+        d = defs.get(name)
+        if d is None:
+            raise Unsupported(f'danger_space: {name} not found')
+        b = [n for n in d.body if not (isinstance(n, ast.Expr) and isinstance(n.value, ast.Constant))]
+        if len(b) != 3 or ast.dump(b[0]) != stmt('center_row = self.trajectory[row_num]') or not isinstance(b[1], ast.For) \
+                or ast.dump(b[1].iter) != ast.dump(ast.parse(it).body[0].value) or ast.dump(b[2]) != stmt('return ' + fallback) \
+                or not (isinstance(b[1].target, ast.Name) and b[1].target.id == 'prime_row') or b[1].orelse:
+            raise Unsupported(f'danger_space: the scan of {name} changed shape')
+        lb = b[1].body
+        if len(lb) != 1 or not isinstance(lb[0], ast.If) or lb[0].orelse or len(lb[0].body) != 1 or ast.dump(lb[0].body[0]) != stmt('return prime_row'):
+            raise Unsupported(f'danger_space: the loop body of {name} changed shape')
+        env = {'target_height_half': Num('half'),
+               'center_row': Obj('TrajectoryData', {'target_drop': Qty('Distance', 'center')}),
+               'prime_row': Obj('TrajectoryData', {'target_drop': Qty('Distance', 'prime')})}
+        c = ev.cond(lb[0].test, env)
+        out.append(f'/-- `danger_space.{name}`: the test that ends the scan at `prime_row` -/\n'
+                   f'abbrev danger_{name[5:]}_hit (half center prime : α) : Prop :=\n  {c.s}\n')
+    ret = [n for n in body if isinstance(n, ast.Return)]
+    want = ast.dump(ast.parse('DangerSpace(self.trajectory[index], target_height, find_begin_danger(index), find_end_danger(index), _look_angle)').body[0].value)
+    if len(ret) != 1 or ast.dump(ret[0].value) != want:
+        raise Unsupported('danger_space: the returned DangerSpace changed')
+    return '\n'.join(out)
+
+
 def find_self_assign(ev, cls, meth, attr):
     m = ev.method(cls, meth)
     for n in ast.walk(m) if m else []:
@@ -1404,6 +1455,7 @@ def generate(repo: Path) -> str:
            'curve_value'], lambda: emit_curve(ev))
     group(['zero_start', 'zero_distance', 'zero_initial_error', 'zero_initial_count', 'zero_cond', 'zero_error', 'zero_missed',
            'zero_correct', 'zero_fails', 'zero_result'], lambda: emit_zero(ev))
+    group(['danger_half', 'danger_begin_danger_hit', 'danger_end_danger_hit'], lambda: emit_danger(ev))
     out += ['end', '', 'def translated : List String := [' + ', '.join(f'"{n}"' for n in done) + ']',
             'def untranslated : List String := [' + ', '.join(f'"{n}"' for ns, _ in failed for n in ns) + ']', '', 'end BC.Gen.Src', '']
     generate.failed = failed
